@@ -125,10 +125,36 @@ func runVerify(repo, prop, tier string, funcs []string, speclib string) (*Verify
 		keys = append(keys, k)
 	}
 	sort.Strings(keys)
-	for _, k := range keys {
-		fr := e.verifyFunc(e.contracts[k], cfg)
-		rep.Funcs = append(rep.Funcs, fr)
-		rep.Obls = append(rep.Obls, fr.Obligations...)
+	done := map[string]bool{}
+	for len(keys) > 0 {
+		var next []string
+		for _, k := range keys {
+			if done[k] {
+				continue
+			}
+			done[k] = true
+			fr := e.verifyFunc(e.contracts[k], cfg)
+			rep.Funcs = append(rep.Funcs, fr)
+			rep.Obls = append(rep.Obls, fr.Obligations...)
+			// contracts of module functions that this proof relied on are verified as well (no silent assumptions);
+			// interface-method contracts and trusted ones stay assumptions and are listed in the evidence
+			for _, u := range fr.Specs {
+				uk := strings.TrimSuffix(u, " (contract verified against its body)")
+				fc := e.contracts[uk]
+				if fc == nil || done[uk] || fc.Trusted || !strings.HasSuffix(fc.File, "zz_verif_contracts.go") {
+					continue
+				}
+				if fn := e.findFunc(uk); fn == nil || fn.Blocks == nil {
+					continue
+				}
+				if len(funcs) > 0 {
+					continue
+				}
+				next = append(next, uk)
+			}
+		}
+		sort.Strings(next)
+		keys = next
 	}
 	if after := gitStatus(repo); after != before {
 		rep.Errors = append(rep.Errors, "the check modified the repository working tree: "+after)
